@@ -512,7 +512,8 @@ void parallel_for_adaptiveWaitDispatch(
   }
   auto callerIt = states.begin();
   std::advance(callerIt, static_cast<ptrdiff_t>(numToLaunch));
-  worker(*callerIt, static_cast<uint32_t>(numToLaunch));
+  detail::runCallerShare(
+      taskSet, [&]() { worker(*callerIt, static_cast<uint32_t>(numToLaunch)); });
   taskSet.wait();
 }
 
